@@ -852,6 +852,7 @@ static void run_script(const string &script)
 		string o = "{\"i\":" + jnum((long long)lineno) + ",\"c\":\"" + c + "\"";
 		bool api = true;
 		int saved_errno = 0;
+		bool fail_seen_before = vt_fail_site[0] != 0;
 
 		static const std::set<string> cfg_cmds = {"free", "errfunc", "searchpath", "parse_buf", "parse_fp", "parse_fp_fail", "parse_file", "setint",
 			"setfloat", "setbool", "setstr", "setstr_self", "setlist_self", "setlist", "addlist", "setmulti", "osetmulti", "setopt", "setcomment", "addtsec",
@@ -1399,6 +1400,8 @@ static void run_script(const string &script)
 			o += ",\"diag\":" + diag_json();
 		if (!g_cblog.empty())
 			o += ",\"cb\":" + cb_json();
+		if (!fail_seen_before && vt_fail_site[0] && c != "failalloc")
+			o += ",\"oom\":1"; // the injected allocation failure happened inside this call
 		o += "}\n";
 		g_out += o;
 		flush_out();
